@@ -297,6 +297,15 @@ def loop_requests(ctx, quick, k):
             out += x
         req.append(f"readdata1 {hexs(out)}")
         req.append(f"readdata1w {hexs(b''.join((rng.choice([b'C', b'D', b'I', b'N', b'', b'X']) + x) for x in out.split(b'#') if x).replace(b'D=', b'D#1='))}")
+    # the `);` recovery scan of SDAI_Application_instance::STEPread, reached through an entity without attributes: `)` with
+    # and without `;` behind it, `;` inside and outside strings, comments, NUL, the end of the input at every point
+    rtoks = [b"(", b")", b";", b"'", b" ", b"x", b"/*c*/", b");", b") ;", b"'a;'", b"\n", b"\x00", b",", b")'", b"#2"]
+    for n in range(0, (2 if quick else 3) + 1):
+        for t in itertools.product(rtoks, repeat=n):
+            req.append(f"recover {hexs(b''.join(t))}")
+            req.append(f"recover {hexs(b'(' + b''.join(t))}")
+    for _ in range(400 if quick else 4000):
+        req.append(f"recover {hexs(b'(' + b''.join(rng.choice(rtoks) for _ in range(rng.randrange(1, 14))))}")
     # ReadHeader (ReadTokenSeparator, FindHeaderSection, the loop over the header instances): `!`-entities, unknown and
     # empty keywords, ENDSEC and its prefixes, strings and comments.  Keywords of the header dictionary are kept out: their
     # STEPread is a hypothesis of the theorem (the file-level streams run it).
@@ -866,6 +875,22 @@ def dense_shapes():
         "run of closing parentheses": lambda n: kinds(14, "('a')", post=")" * n),
         "white space": lambda n: kinds(1, " \n" * n + "1.5"),
     }
+    # records the reader cannot read cleanly, with no `);` in the rest of the file: whatever looks for the end of such a
+    # record (the `);` scan of STEPread, CheckRemainingInput's skip to the next delimiter) must stay inside the record —
+    # pass 2 starts again behind the record's `;`, so a scan to the end of the file is paid once per record
+    damaged = {
+        "run of instances without closing parenthesis": "#%d=POINT(1.,2.;\n",
+        "run of instances that end after the first value": "#%d=POINT(1.;\n",
+        "run of instances with an unreadable value and no delimiter": "#%d=POINT(x;\n",
+        "run of instances with an unreadable second value": "#%d=POINT(1.,x;\n",
+        "run of instances with an unclosed string": "#%d=POINT(1.,'x;\n",
+        "run of instances with an unclosed aggregate": "#%d=DPOINT((1.,;\n",
+        "run of instances with an opening parenthesis for a value": "#%d=POINT(1.,(;\n",
+        "run of complex instances without closing parenthesis": "#%d=(A1(2.5)BASE(7;\n",
+        "run of instances with unreadable values and delimiters": "#%d=POINT(x,y);\n",
+    }
+    for nm, rec in damaged.items():
+        sh[nm] = (lambda rec: lambda n: plain("".join(rec % (k + 10) for k in range(n // 4))))(rec)
     return sh
 
 
@@ -1139,8 +1164,8 @@ def setup(ctx):
         "dictionary (schema) names and literals passed to sprintf %s are at most 2048 bytes; ints are 32-bit; RealNumPrecision <= 33",
         "BUFSIZ is the build compiler's <stdio.h> value (regenerated)",
         "'time proportional to the input' is checked against a budget of 60x the per-byte cost of the unmutated file + 4 s",
-        "the `);` recovery scan and the export-list loop are modelled and proved but have no function-level correspondence "
-        "(they are inside larger functions); they are exercised at file level only",
+        "the export-list loop is modelled and proved but has no function-level correspondence "
+        "(it is inside larger functions); it is exercised at file level only",
     ]
     ctx.cov["partial"] = ["theorems cover the modelled fixed-capacity buffers and recovery loops only; the rest of C05 is sanitizer testing"]
 
